@@ -720,6 +720,7 @@ func runAlertRules(c *Ctx) {
 				}
 			}
 			c.Check(under, "ALERT", fname, "selector entities appended only when they inform something", p.ipos(call), "append dominated by the predicate's true edge", "an informed entity is appended without passing the informs-something predicate")
+			_ = under
 		}
 	}
 	if n != 1 {
@@ -793,6 +794,59 @@ func runAlertRules(c *Ctx) {
 			if fs.field == "ID" {
 				expr := b.bind(fs.store.Val)
 				c.Check(strings.Contains(expr, "parseOptionalTripDescriptor(proto:EntitySelector.Trip"), "ALERT", fname, "reported trip carries the selector's descriptor", p.ipos(fs.store), "Trip.ID <- the selector's trip descriptor", "the trip reported for an alert is not built from the selector's descriptor: "+clip(expr, 80))
+			}
+		}
+	}
+	// P2b: and every selector that informs something is appended: from the predicate's true edge no path around the
+	// selector loop goes past the append (a "seen this selector already" guard in between compares a key that leaves
+	// something out and drops a selector that differs there)
+	for b := range sel.Blocks {
+		iff, ok := b.Instrs[len(b.Instrs)-1].(*ssa.If)
+		if !ok {
+			continue
+		}
+		cond, neg := iff.Cond, false
+		if u, isNot := cond.(*ssa.UnOp); isNot && u.Op == token.NOT {
+			cond, neg = u.X, true
+		}
+		cc, isCall := cond.(*ssa.Call)
+		if !isCall || staticCallee(cc) != pred {
+			continue
+		}
+		start := b.Succs[0]
+		if neg {
+			start = b.Succs[1]
+		}
+		skipped := false
+		nP := pathsWithin(start, sel, func(path []*ssa.BasicBlock, back bool) {
+			if !back {
+				return
+			}
+			has := false
+			for _, pb := range path {
+				for _, in := range pb.Instrs {
+					if call, isC := in.(*ssa.Call); isC && isEntAppend(call) {
+						has = true
+					}
+				}
+			}
+			if !has {
+				skipped = true
+			}
+		})
+		c.Check(!skipped && nP > 0, "ALERT", fname, "every selector that informs something is appended", p.ipos(iff), fmt.Sprintf("all %d paths from the predicate's true edge to the next selector append the entity", nP), "a selector that informs something can be skipped after the predicate (a further guard stands between the predicate and the append)")
+	}
+	// the directions recorded for a route that is informed through route-only trip descriptors are those of the
+	// descriptors: the selector's own direction_id does not stand in for a direction the descriptor does not name
+	for _, g := range c.regionOf(fn) {
+		for _, gb := range g.Blocks {
+			for _, in := range gb.Instrs {
+				mu, ok := in.(*ssa.MapUpdate)
+				if !ok || typeName(mu.Key.Type()) != "gtfs.DirectionID" {
+					continue
+				}
+				e := newBinder(c).bind(mu.Key)
+				c.Check(!strings.Contains(e, "EntitySelector.DirectionId"), "ALERT", shortName(g), "fallback directions come from the trip descriptor", p.ipos(mu), "the recorded direction is the descriptor's", "the direction recorded for a route informed through a trip descriptor can be the selector's own direction_id ("+clip(e, 100)+"): a descriptor that names no direction must inform the route without direction")
 			}
 		}
 	}
